@@ -98,6 +98,13 @@ Theorem C06_drivermode_atomic : forall dw o,
   (t_err t <> ENone -> c' = c).
 Proof. exact drv_atomic. Qed.
 
+(* the two regions are exactly as wide as the defect: inside them every proxy-driver delivery commits a
+   record / effect combination that is not a step of the status machine *)
+Theorem C06_drivermode_regions_exact : forall locked row ph fault,
+  drv_supported locked row ph fault = false ->
+  let '(_, sh) := deliver_l true locked row ph fault in legal row (s_row sh) (s_effs sh) = false.
+Proof. exact regions_exact. Qed.
+
 Theorem C06_drivermode_refuted :
   (let h := [DDrv 1 Prepare None; DDrv 1 Commit None; DDrv 1 Commit None] in
    dhist_supported dinit h = false /\ confirm_of (get (fst (run_dhist dinit h)) 1) = 2) /\
